@@ -27,6 +27,11 @@ type Connection struct {
 	// Used to buffer reads
 	readBuffer io.Reader
 
+	// Buffers the encrypted bytes read from the connection. There is one buffered
+	// reader for the lifetime of the connection: bytes it read ahead belong to the
+	// frames which are decrypted next and must not be dropped.
+	buffered *bufio.Reader
+
 	// Serializes encrypted writes: the frame counter is taken and the
 	// frames are written to the socket as one step
 	writeMutex sync.Mutex
@@ -78,14 +83,16 @@ func (con *Connection) EncryptedWrite(b []byte) (int, error) {
 // The method returns the number of read bytes and an error when reading failed.
 func (con *Connection) DecryptedRead(b []byte) (int, error) {
 	if con.readBuffer == nil {
-		buffered := bufio.NewReader(con.connection)
-		decrypted, err := con.getDecrypter().Decrypt(buffered)
+		if con.buffered == nil {
+			con.buffered = bufio.NewReader(con.connection)
+		}
+		decrypted, err := con.getDecrypter().Decrypt(con.buffered)
 		if err != nil {
 			if neterr, ok := err.(net.Error); ok && neterr.Timeout() {
 				// Ignore timeout error #77
 			} else {
 				log.Debug.Println("Decryption failed:", err)
-				err = con.connection.Close()
+				con.connection.Close()
 			}
 			return 0, err
 		}
@@ -97,6 +104,12 @@ func (con *Connection) DecryptedRead(b []byte) (int, error) {
 
 	if n < len(b) || err == io.EOF {
 		con.readBuffer = nil
+	}
+
+	if err == io.EOF {
+		// The decrypted bytes are used up, which is not the end of the connection.
+		// The next read decrypts the following frames.
+		err = nil
 	}
 
 	return n, err
